@@ -35,6 +35,7 @@ type Report struct {
 	Obls     []Obl
 	Analysed map[string]int
 	Notes    []string
+	Mutants  []MutantResult
 	w        *World
 	curRule  string
 }
@@ -225,7 +226,9 @@ func run(props []string, tier, repo, verifDir, replay, overlayF string, noEv boo
 				code = 2
 			}
 		}()
-		w = LoadWorld(repo, tier == "thorough" && overlayF == "", overlay, true)
+		// test packages are not loaded: the rules exempt test code by construction (IsTestFunc) and the
+		// recompiled test variants of packages would only duplicate every function under other object identities
+		w = LoadWorld(repo, false, overlay, true)
 	}()
 	if w == nil {
 		// the tree cannot be analysed: that is never a pass. Evidence still records the failure.
@@ -285,6 +288,22 @@ func run(props []string, tier, repo, verifDir, replay, overlayF string, noEv boo
 				}()
 				rule.Run(w, rep)
 			}()
+		}
+		var mutRes []MutantResult
+		if tier == "thorough" && overlayF == "" && replayKeys == nil {
+			mutRes = runMutants(p, repo, verifDir)
+			rep.curRule = "SELFTEST"
+			for _, m := range mutRes {
+				switch m.Status {
+				case "detected":
+					rep.Ok("mutant:"+m.ID, "in-memory variant with one instance broken is reported ("+strings.Join(m.Fired, "; ")+")")
+				case "skipped":
+					rep.Note("mutant:"+m.ID, "variant not applicable on this tree", m.Detail)
+				default:
+					rep.Undecided("mutant:"+m.ID, "the checker must report this broken variant", m.Status+": expected one of "+strings.Join(m.Expected, " | ")+"; fired "+strings.Join(m.Fired, "; ")+" "+m.Detail)
+				}
+			}
+			rep.Mutants = mutRes
 		}
 		if replayKeys != nil {
 			var kept []Obl
@@ -458,6 +477,7 @@ func writeEvidence(verifDir, p, tier string, seed int, rep *Report, w *World, du
 			"per_rule":            perRule,
 			"analysed":            analysed,
 			"checker_cmd":         "bin/sdbcheck -property " + p + " -tier " + tier,
+			"mutation_selftest":   rep.Mutants,
 			"trusted_base":        []string{"go/types and go/ssa of golang.org/x/tools v0.29.0", "VTA call graph (sound for the loaded program without reflection)", "frozen tables in checker/rules_*.go (guard table, transfer table, allow-lists), each entry justified in place", "build configuration linux/amd64, no build tags"},
 		},
 		"assumptions": []string{
